@@ -34,6 +34,10 @@ def run(chk):
     decode(chk, prog)
     clamps(chk, prog)
     zxaychip(chk, prog)
+    chk.rule("T-TABLE/tick", "per-tick summaries of the tone / noise / envelope generators and of the mixer (DAC index tabulated over every channel input); tick rate f_clk/8 from the resampler's step and loop structure")
+    generators(chk, prog)
+    mixer(chk, prog)
+    tick_rate(chk, prog)
     # the resampler's phase stays in [0,1): a necessary condition of 'every sample is finite and bounded'
     from . import floatinv
     chk.rule("T-INV/float", "interval analysis of AymPrecise::process: phase accumulator in [0,1) at every interpolation use and at return, for every step up to clock/(8000*64)")
@@ -406,3 +410,362 @@ def zxaychip(chk, prog):
     chk.check(ok, "T-PAIR/ZXAyChip::write", "AY data write does not store the byte and forward the same (register, byte) to the sound generator")
     chk.count("chip-paths", n)
     chk.floor("chip-paths", 32)
+
+
+# ------------------------------------------------------------------------------------------------------------------
+# the per-tick generators (one call of update_mixer = one tick of f_clk / 8)
+def _ay_walk(prog, name, args, opaque=(), hook=None, max_paths=4000):
+    AY = prog.adt_path("aym", "AymPrecise")
+    w = Walker(prog, max_paths=max_paths)
+    for o in opaque:
+        w.opaque_paths.add(prog.fn_path("aym", "AymPrecise::" + o))
+    w.effect_hook = hook or (lambda w_, st, path, a, d, wh: EffectResult(None, havoc=False))
+    st = w.new_state()
+    st.store[("h", "ay")] = w.materialise(SymObj("ay", ("adt", AY, ())), st)
+    rs = w.run(prog.fn(prog.fn_path("aym", "AymPrecise::" + name)), [Ref(("h", "ay"), (), True)] + args, genv={}, state=st)
+    return w, rs
+
+
+def _eq(a, b):
+    return isinstance(a, T) and (a is b or tm.equiv(a, b) is True)
+
+
+def generators(chk, prog):
+    """T-TABLE per tick: a tone channel toggles every TP ticks, the noise register shifts every 2*NP ticks, the envelope
+    steps every EP ticks (counters restart at 0, nothing else changes in between); with the tick rate f_clk/8 decided
+    below this is the chip's f_clk/(16 TP), f_clk/(16 NP) and 8 EP/f_clk per envelope step (256 EP/f_clk per 32-step ramp)."""
+    AY = prog.adt_path("aym", "AymPrecise")
+    TC = prog.adt_path("aym", "ToneChannel")
+    fa_, ft_ = (lambda n: prog.field_index(AY, n)), (lambda n: prog.field_index(TC, n))
+
+    def fsym(adt, prefix, field):
+        ty = prog.adt(adt)["variants"][0]["fields"][prog.field_index(adt, field)]["ty"]
+        return tm.sym(prefix + field, ty[1] if ty[0] == "int" and ty[1] else 64)
+    inc = lambda t: tm.binop("add", t, K(1, t.bits))
+    zero = lambda t: K(0, t.bits)
+    one = K(1, 64)
+    # ---- tone
+    for i in range(3):
+        key = "T-TABLE/AymPrecise::update_tone/%d" % i
+        w, rs = _ay_walk(prog, "update_tone", [K(i, 64)])
+        if len(rs) != 2 or any(r.outcome != "return" for r in rs):
+            chk.fail(key + "/paths", "update_tone: %s" % [(r.outcome, r.detail) for r in rs][:3])
+            continue
+        P, C, Tn = (fsym(TC, "ay.channels[%d]." % i, n) for n in ("tone_period", "tone_counter", "tone"))
+        one = K(1, Tn.bits)
+        seen = set()
+        for r in rs:
+            hit = c04.cc_decide(r, tm.cmp("ule", P, inc(C)))
+            if hit is None:
+                chk.undecided_(key + "/classify", "the generator does not branch on counter + 1 >= period but on %s" % [tm.show(c[1]) for c in r.pc if isinstance(c[1], T)][:3])
+                continue
+            seen.add(hit)
+            ch = r.store[("h", "ay")].fields[fa_("channels")].fields[i]
+            c2, t2 = cc.leaf_term(ch.fields[ft_("tone_counter")]), cc.leaf_term(ch.fields[ft_("tone")])
+            others = all(cc.leaf_term(ch.fields[k]) is tm.sym("ay.channels[%d].%s" % (i, f["name"]), cc.leaf_term(ch.fields[k]).bits)
+                         for k, f in enumerate(prog.adt(TC)["variants"][0]["fields"])
+                         if f["name"] not in ("tone_counter", "tone") and cc.leaf_term(ch.fields[k]) is not None)
+            if hit:
+                ok = _eq(c2, zero(C)) and _eq(t2, tm.binop("xor", Tn, one)) and _eq(r.ret, tm.binop("xor", Tn, one))
+            else:
+                ok = _eq(c2, inc(C)) and _eq(t2, Tn) and _eq(r.ret, Tn)
+            chk.check(ok and others, key + ("/toggle" if hit else "/count"),
+                      "tone channel %d, counter+1 %s period: counter -> %s, level -> %s, output %s; documented %s" % (
+                          i, ">=" if hit else "<", c2, t2, r.ret, "restart at 0 and toggle" if hit else "count up, level kept"))
+            chk.count("generator-rows")
+        chk.check(seen == {True, False}, key + "/cases", "tone generator cases %s" % seen)
+    # ---- noise
+    key = "T-TABLE/AymPrecise::update_noise"
+    w, rs = _ay_walk(prog, "update_noise", [])
+    NP, NC, N = (fsym(AY, "ay.", n) for n in ("noise_period", "noise_counter", "noise"))
+    one = K(1, N.bits)
+    if len(rs) != 2 or any(r.outcome != "return" for r in rs):
+        chk.fail(key + "/paths", "update_noise: %s" % [(r.outcome, r.detail) for r in rs][:3])
+    else:
+        seen = set()
+        for r in rs:
+            hit = c04.cc_decide(r, tm.cmp("ule", tm.binop("shl", NP, K(1, NP.bits)), inc(NC)))
+            if hit is None:
+                hit = c04.cc_decide(r, tm.cmp("ule", tm.binop("mul", NP, K(2, NP.bits)), inc(NC)))
+            if hit is None:
+                chk.undecided_(key + "/classify", "the noise generator does not branch on counter + 1 >= 2 * period but on %s" % [tm.show(c[1]) for c in r.pc if isinstance(c[1], T)][:3])
+                continue
+            seen.add(hit)
+            a = r.store[("h", "ay")]
+            c2, n2 = cc.leaf_term(a.fields[fa_("noise_counter")]), cc.leaf_term(a.fields[fa_("noise")])
+            if hit:
+                # a shift register: bits 15..0 of the new value are bits 16..1 of the old one, the new value depends on
+                # nothing but the old one, and the output is its bit 0
+                low = lambda t: tm.binop("and", t, K(0xFFFF, t.bits))
+                ok = _eq(c2, zero(NC)) and isinstance(n2, T) and tm.syms(n2) <= {"ay.noise"} and \
+                    tm.equiv(low(n2), low(tm.binop("lshr", N, one))) is True and _eq(r.ret, tm.binop("and", n2, one))
+            else:
+                ok = _eq(c2, inc(NC)) and _eq(n2, N) and _eq(r.ret, tm.binop("and", N, one))
+            chk.check(ok, key + ("/shift" if hit else "/count"),
+                      "noise generator, counter+1 %s 2*period: counter -> %s, register -> %s, output %s" % (">=" if hit else "<", c2, n2, r.ret))
+            chk.count("generator-rows")
+        chk.check(seen == {True, False}, key + "/cases", "noise generator cases %s" % seen)
+    # ---- envelope counter
+    key = "T-TABLE/AymPrecise::update_envelope"
+    w, rs = _ay_walk(prog, "update_envelope", [])
+    EP, EC, E, SEG = (fsym(AY, "ay.", n) for n in ("envelope_period", "envelope_counter", "envelope", "envelope_segment"))
+    if not rs or any(r.outcome != "return" for r in rs):
+        chk.fail(key + "/paths", "update_envelope: %s" % [(r.outcome, r.detail) for r in rs if r.outcome != "return"][:3])
+    else:
+        seen = set()
+        for r in rs:
+            hit = c04.cc_decide(r, tm.cmp("ule", EP, inc(EC)))
+            if hit is None:
+                chk.undecided_(key + "/classify", "the generator does not branch on counter + 1 >= period but on %s" % [tm.show(c[1]) for c in r.pc if isinstance(c[1], T)][:3])
+                continue
+            seen.add(hit)
+            a = r.store[("h", "ay")]
+            c2, e2, s2 = (cc.leaf_term(a.fields[fa_(n)]) for n in ("envelope_counter", "envelope", "envelope_segment"))
+            if hit:
+                ok = _eq(c2, zero(EC)) and _eq(r.ret, e2)
+            else:
+                ok = _eq(c2, inc(EC)) and _eq(e2, E) and _eq(s2, SEG) and _eq(r.ret, E)
+            chk.check(ok, key + ("/step" if hit else "/count"),
+                      "envelope generator, counter+1 %s period: counter -> %s, level %s -> %s, output %s" % (">=" if hit else "<", c2, E, e2, r.ret))
+            chk.count("generator-rows")
+        chk.check(seen == {True, False}, key + "/cases", "envelope generator cases %s" % seen)
+    chk.floor("generator-rows", 10)
+
+
+def mixer(chk, prog):
+    """T-TABLE: one tick of update_mixer advances each generator exactly once and adds, per channel and side,
+    dac[((tone | tone_off) & (noise | noise_off)) * (envelope if envelope mode else 2*volume + 1)] * pan — tabulated for
+    every value of the channel's bits, volume 0..15 and envelope 0..31 (16384 rows per channel and side)."""
+    import numpy as np
+    AY = prog.adt_path("aym", "AymPrecise")
+    gens = dict((prog.fn_path("aym", "AymPrecise::" + o), o) for o in ("update_tone", "update_noise", "update_envelope"))
+
+    def hook(w_, st, path, a, d, wh):
+        if path in gens:
+            n = gens[path]
+            if n == "update_tone":
+                if not (isinstance(a[1], T) and a[1].is_const()):
+                    return EffectResult(tm.sym("tone?", 64), havoc=False)
+                return EffectResult(tm.sym("tone%d" % a[1].val, 64), havoc=False)
+            return EffectResult(tm.sym(n[7:], 64), havoc=False)
+        return None
+    w, rs = _ay_walk(prog, "update_mixer", [], opaque=("update_tone", "update_noise", "update_envelope"), hook=hook)
+    key = "T-TABLE/AymPrecise::update_mixer"
+    good = [r for r in rs if r.outcome == "return"]
+    other = [r for r in rs if r.outcome not in ("return", "panic")]
+    if not good or other:
+        chk.fail(key + "/paths", "update_mixer: %s" % [(r.outcome, r.detail) for r in (other or rs)][:3])
+        return
+    # every generator advanced exactly once per tick (tone: once per channel)
+    for r in good:
+        calls = sorted(gens[e.path] + (str(e.args[1].val) if gens[e.path] == "update_tone" and isinstance(e.args[1], T) and e.args[1].is_const() else "")
+                       for e in r.trace if e.path in gens)
+        chk.check(calls == ["update_envelope", "update_noise", "update_tone0", "update_tone1", "update_tone2"], key + "/advance",
+                  "one tick advances the generators %s; documented each exactly once" % calls)
+    rows = 1 << 14
+    idx = np.arange(rows, dtype=np.uint64)
+    bits = lambda sh, n: (idx >> np.uint64(sh)) & np.uint64((1 << n) - 1)
+    for i in range(3):
+        env = {}
+        for j in range(3):
+            pre = "ay.channels[%d]." % j
+            mine = (j == i)
+            env["tone%d" % j] = bits(0, 1) if mine else np.uint64(1)
+            env[pre + "tone_off_bit"] = bits(1, 1) if mine else np.uint64(1)
+            env[pre + "noise_off_bit"] = bits(2, 1) if mine else np.uint64(1)
+            env[pre + "envelope_enabled"] = bits(3, 1) if mine else np.uint64(0)
+            env[pre + "volume"] = bits(4, 4) if mine else np.uint64(15)
+        env["noise"] = bits(8, 1)
+        env["envelope"] = bits(9, 5)
+        t_, toff, noff, en, vol = env["tone%d" % i], env["ay.channels[%d].tone_off_bit" % i], env["ay.channels[%d].noise_off_bit" % i], \
+            env["ay.channels[%d].envelope_enabled" % i], env["ay.channels[%d].volume" % i]
+        want = ((t_ | toff) & (env["noise"] | noff)) * np.where(en == 1, env["envelope"], vol * np.uint64(2) + np.uint64(1))
+        cover = np.zeros(rows, dtype=np.int64)
+        for side, pan in (("left", "pan_left"), ("right", "pan_right")):
+            got = np.full(rows, -1, dtype=np.int64)
+            for r in good:
+                m = cc.path_mask(r, env, rows)
+                if not m.any():
+                    continue
+                if side == "left":
+                    cover += m
+                total = r.store[("h", "ay")].fields[prog.field_index(AY, side)]
+                terms = []
+                if not _sum_leaves(total, terms):
+                    chk.undecided_(key + "/sum", "the %s output is not a sum of channel contributions: %s" % (side, tm.show(total)[:200]))
+                    continue
+                mine_ = [x for x in terms if x.op == "app:fMul" and any(a_.op == "sym" and a_.args[0] == "ay.channels[%d].%s" % (i, pan) for a_ in x.args)]
+                chk.check(len(mine_) == 1 and len(terms) == 3, key + "/%d/%s/once" % (i, side),
+                          "channel %d contributes %d terms of %d to the %s output; documented one per channel" % (i, len(mine_), len(terms), side))
+                if len(mine_) != 1:
+                    continue
+                sel = [a_ for a_ in mine_[0].args if not (a_.op == "sym" and a_.args[0].endswith(pan))][0]
+                v = _select_index(sel, env, rows)
+                if v is None:
+                    chk.undecided_(key + "/%d/%s/level" % (i, side), "amplitude of channel %d is not a DAC table entry: %s" % (i, tm.show(sel)[:200]))
+                    continue
+                got[m] = v[m]
+            # rows on which the tick panics (level index >= 32) are those with a tone / noise bit outside {0,1}: none here
+            bad = np.nonzero(got != want.astype(np.int64))[0]
+            chk.check(len(bad) == 0, key + "/%d/%s/level" % (i, side),
+                      "channel %d, %s: DAC index differs from (tone|tone_off)&(noise|noise_off) * (envelope or 2*volume+1) on %d of %d rows, e.g. row %s: %s instead of %s" % (
+                          i, side, len(bad), rows, int(bad[0]) if len(bad) else "-", int(got[bad[0]]) if len(bad) else "-", int(want[bad[0]]) if len(bad) else "-"))
+            chk.count("mixer-rows", rows)
+        chk.check(bool((cover == 1).all()), key + "/%d/partition" % i, "the returning paths do not partition the channel's input space (a tick can panic for in-range inputs)")
+    chk.floor("mixer-rows", 6 * rows)
+
+
+def _sum_leaves(t, out):
+    """leaves of a tree of float additions (a constant 0.0 start value is dropped)"""
+    if not isinstance(t, T):
+        return False
+    if t.op == "app:fAdd":
+        return all(_sum_leaves(a, out) for a in t.args)
+    if t.is_const():
+        return fconst(t) == 0.0
+    out.append(t)
+    return True
+
+
+def fconst(t):
+    if isinstance(t, T) and t.is_const():
+        try:
+            return struct.unpack("<d", struct.pack("<Q", t.val & 0xFFFFFFFFFFFFFFFF))[0]
+        except struct.error:
+            return None
+    return None
+
+
+def _select_index(t, env, rows):
+    """row-wise index of the DAC table entry a selection chain picks"""
+    import numpy as np
+    if t.op == "sym":
+        import re
+        mo = re.search(r"dac_table\*?\[(\d+)\]$", t.args[0])
+        return np.full(rows, int(mo.group(1)), dtype=np.int64) if mo else None
+    if t.op == "ite":
+        c = np.broadcast_to(np.asarray(tm.evaluate(t.args[0], env), dtype=np.uint64), (rows,))
+        a, b = _select_index(t.args[1], env, rows), _select_index(t.args[2], env, rows)
+        if a is None or b is None:
+            return None
+        return np.where(c != 0, a, b)
+    return None
+
+
+def tick_rate(chk, prog):
+    """T-PAIR/T-TABLE: one sample = D interpolation points, each advancing the phase by step = f_clk / (rate * 8 * D),
+    and one generator tick per unit of phase (every loop of the resampler that subtracts 1.0 from the phase calls
+    update_mixer exactly once and vice versa; every other loop adds step exactly once per iteration).  With the phase
+    invariant (T-INV) the generators are ticked f_clk / 8 times per second, whatever the sample rate."""
+    from zx import scan
+    AY = prog.adt_path("aym", "AymPrecise")
+    fn = prog.fn(prog.fn_path("aym", "AymPrecise::process"))
+    UM = prog.fn_path("aym", "AymPrecise::update_mixer")
+    xi, si = prog.field_index(AY, "x"), prog.field_index(AY, "step")
+    blocks = fn.body["blocks"]
+    key = "T-PAIR/AymPrecise::process/tick"
+
+    def is_field(op_or_place, idx):
+        pl = op_or_place[1] if isinstance(op_or_place, list) else op_or_place
+        return isinstance(pl, dict) and pl.get("l") == 1 and len(pl["p"]) == 2 and pl["p"][0][0] == "d" and pl["p"][1][0] == "f" and pl["p"][1][1] == idx
+
+    def flt(op):
+        try:
+            return float(op[1]["v"]["float"]) if op[0] == "c" and isinstance(op[1].get("v"), dict) and "float" in op[1]["v"] else None
+        except ValueError:
+            return None
+    # locals holding a copy of self.step
+    step_copies = set()
+    for b in blocks:
+        for s in b["s"]:
+            if s[0] == "=" and s[2][0] == "use" and s[2][1][0] in ("cp", "mv") and is_field(s[2][1], si) and not s[1]["p"]:
+                step_copies.add(s[1]["l"])
+    adds, subs, calls, other_x = [], [], [], []
+    for i, b in enumerate(blocks):
+        if b.get("cleanup"):
+            continue
+        for s in b["s"]:
+            if s[0] == "=" and is_field(s[1], xi):
+                rv = s[2]
+                if rv[0] == "bin" and rv[1] == "Add" and is_field(rv[2], xi) and (is_field(rv[3], si) or (rv[3][0] in ("cp", "mv") and rv[3][1]["l"] in step_copies and not rv[3][1]["p"])):
+                    adds.append(i)
+                elif rv[0] == "bin" and rv[1] == "Sub" and is_field(rv[2], xi) and flt(rv[3]) == 1.0:
+                    subs.append(i)
+                else:
+                    other_x.append(i)
+        if b["t"]["k"] == "call" and UM in scan.call_targets(prog, fn, b["t"]):
+            calls.append(i)
+    if len(adds) != 1 or len(subs) != 1 or len(calls) != 1 or other_x:
+        chk.fail(key + "/sites", "the resampler advances its phase at %s, reduces it at %s, ticks the generators at %s and writes it otherwise at %s; "
+                 "documented one `x += step`, one `x -= 1.0` and one update_mixer call" % (adds, subs, calls, other_x))
+        return
+    succ = dict((i, [t for t in scan.successors(b["t"]) if not blocks[t].get("cleanup")]) for i, b in enumerate(blocks))
+
+    def on_cycle(start, avoid):
+        seen, work = set(), list(succ[start])
+        while work:
+            n = work.pop()
+            if n == start:
+                return True
+            if n in seen or n in avoid:
+                continue
+            seen.add(n)
+            work.extend(succ[n])
+        return False
+
+    def acyclic_without(avoid):
+        return not any(on_cycle(i, avoid) for i in succ if i not in avoid)
+    a, s_, c = adds[0], subs[0], calls[0]
+    chk.check(on_cycle(s_, set()) and not on_cycle(s_, {c}) and not on_cycle(c, {s_}), key + "/tick-per-unit",
+              "a generator tick (block %d) and a unit decrement of the phase (block %d) do not always come together" % (c, s_))
+    chk.check(on_cycle(s_, {a}), key + "/inner-loop", "the unit decrement is not in a loop of its own (the phase would be reduced at most once per point)")
+    chk.check(on_cycle(a, set()) and acyclic_without({a, s_}), key + "/step-per-point",
+              "some loop of the resampler neither advances the phase by step nor consumes a unit of it")
+    # number of interpolation points per sample: the constant range of the outer loop
+    rng = []
+    for b in blocks:
+        for s in b["s"]:
+            if s[0] == "=" and s[2][0] == "agg" and s[2][1].get("path", "").endswith("ops::range::Range") and len(s[2][2]) == 2:
+                lo, hi = s[2][2]
+                if lo[0] == "c" and hi[0] == "c" and "int" in lo[1].get("v", {}) and "int" in hi[1].get("v", {}):
+                    rng.append((int(lo[1]["v"]["int"]), int(hi[1]["v"]["int"])))
+    if len(rng) != 1:
+        chk.undecided_(key + "/points", "the number of interpolation points per sample is not one constant range: %s" % rng)
+        return
+    D = rng[0][1] - rng[0][0]
+    # step = clock / (rate * 8 * D)
+    w = Walker(prog, max_paths=200)
+    for o in ("set_envelope", "set_tone"):
+        w.opaque_paths.add(prog.fn_path("aym", "AymPrecise::" + o))
+    w.effect_hook = lambda w_, st, path, a_, d, wh: EffectResult(None, havoc=False)
+    CLK, SR = tm.sym("CLK", 64), tm.sym("SR", 64)
+    rs = w.run(prog.fn(prog.fn_path("aym", "AymPrecise::new")), [tm.sym("is_ym", 1), CLK, SR], genv={})
+    ok = bool(rs) and all(r.outcome == "return" for r in rs)
+    shown = None
+    for r in rs if ok else []:
+        obj = r.store[r.ret.obj] if isinstance(r.ret, Ref) else r.ret
+        st_ = obj.fields[si] if isinstance(obj, Agg) else None
+        shown = st_
+        good = isinstance(st_, T) and st_.op == "app:fDiv" and st_.args[0] is CLK
+        if good:
+            factors = []
+            good = _product_leaves(st_.args[1], factors)
+            consts = [fconst(x) for x in factors if fconst(x) is not None]
+            syms_ = [x for x in factors if fconst(x) is None]
+            prod = 1.0
+            for v in consts:
+                prod *= v
+            good = good and len(syms_) == 1 and syms_[0].op == "app:IntToFloat" and syms_[0].args[0] is SR and prod == 8.0 * D
+        ok = ok and good
+    chk.check(ok, "T-TABLE/AymPrecise::new/step", "the phase step is %s; documented clock / (sample rate * 8 * %d) (generators ticked at f_clk/8, %d points per sample)" % (
+        tm.show(shown) if isinstance(shown, T) else shown, D, D))
+    chk.sample({"points_per_sample": D, "tick_rate": "f_clk / 8", "phase_step": tm.show(shown) if isinstance(shown, T) else str(shown)})
+
+
+def _product_leaves(t, out):
+    if isinstance(t, T) and t.op == "app:fMul":
+        return all(_product_leaves(a, out) for a in t.args)
+    if isinstance(t, T):
+        out.append(t)
+        return True
+    return False
